@@ -290,7 +290,9 @@ class OsShim(types.ModuleType):
         if src in disk.files:
             disk.files[dst] = disk.files.pop(src)
         if src in disk.logs:
-            disk.logs[dst] = disk.logs.pop(src)
+            # the history of the name: what was there before, then the file
+            # that now takes its place
+            disk.logs[dst] = disk.logs.get(dst, []) + disk.logs.pop(src)
         disk.marks = [(dst if n == src else n, lab, pos)
                       for (n, lab, pos) in disk.marks]
 
